@@ -386,7 +386,7 @@ def run(ctx):
         "numpy float64 arithmetic is IEEE round-to-nearest-even (Fc.rndMag)",
     ]
     rng = ctx.rng
-    n = ctx.scale(420, 8000)
+    n = ctx.scale(420, 3000)
     rows = []
     for i in range(n):
         # the whole-comparator correspondence (large driver lines) on every 4th base mesh in the quick tier
